@@ -26,7 +26,7 @@ TARGETS = ["t.local.", "T.local.", "t.LOCAL.", "u.local."]
 
 
 def floors(tier):
-    return {"c20.eq": 150000 if tier == "quick" else 3000000, "c20.hash": 3000, "c20.behaviour": 3000}
+    return {"c20.eq": 1000000 if tier == "quick" else 8000000, "c20.hash": 30000, "c20.behaviour": 30000}
 
 
 def plan(tier, seed):
@@ -145,7 +145,7 @@ def run_shard(spec):
     n = len(vocab)
     rng = rng_for("c20", spec["seed"], spec["shard"])
     quick = spec["tier"] == "quick"
-    sample_k = 40 if quick else 1
+    sample_k = 8 if quick else 1
     res.extra["const_vocabulary_objects"] = n
     res.extra["const_ordered_pairs_total"] = n * n
     # index by key so quick mode finds every expected-equal pair
